@@ -290,6 +290,17 @@ Definition istep (fuel : nat) (st : istate) (o : op) : istate * obs :=
       end
   | OThubVal z _ => (st, OItem z)
   | OTeeVal z n => (st, OItems (repeat z n))
+  | OAppendObj i j =>                 (* chain(self._data, Stream(obj)._data) *)
+      if Nat.eqb i j then (st, OBad) else
+      match nth_error (i_objs st) i with
+      | Some (XStream _) =>
+          match igive st j with
+          | inl (Some (st', itj)) => iapply st' i (fun it => IOk (IChain it itj))
+          | inl None => (st, OBad)
+          | inr e => (st, ORaise e)
+          end
+      | _ => (st, OBad)
+      end
   end.
 
 Fixpoint irun (fuel : nat) (st : istate) (ops : list op) : list obs :=
